@@ -56,6 +56,7 @@ def step (toks : List String) : Option (String × String) :=
       let seq := if s == "-" then [] else s.splitOn ","
       some (if matchesShape kind refs seq then "ok" else "SHAPE-MISMATCH(save=" ++ ",".intercalate save ++ ")", "*")
   | "after" :: _ => some ("ok", "ok")
+  | "durable" :: _ => some ("ok", "ok")    -- the live view at return = the view after reopening
   | "kill" :: _ => some ("ok", "ok")
   | _ => none
 
